@@ -35,6 +35,7 @@ RULE = (
     ' Round 10: `send` events (version request, commands) may not move the version; `warnings=error` (library warnings promoted to exceptions).'
     " Round 11: `via` (reports through the library's MQTT / stream transport), `probe_sender` (0, 255, unknown, 254); environment sweep judged on the version query."
     ' Round 12: `backlog` op; `session` ops that leave with an error; hidden-switch sweep; pass under `python -O`.'
+    ' Round 13: `rx_cancel k`, `two_listeners`.'
 )
 ASSUMPTIONS = [
     "spec tables: internal 0-14 (1.4), 0-17 (1.5), 0-28 (2.0, 2.1), 0-33 (2.2); stream 0-5",
